@@ -500,17 +500,59 @@ func runC09(rc *fw.RunCtx) {
 			})
 		})
 	}
+	var codecMu sync.Mutex
+	var codecNames []string
 	if withCodecWriter {
-		id := freshCounter.Add(1)
-		s.Go("host", "codec-writer", func() {
-			for i := 0; i < 3; i++ {
-				s.Yield("host.codec")
-				builtins.RegisterCodec(fmt.Sprintf("verif-%d-%d", id, i), &builtins.Codec{
-					Encode: func(ctx context.Context, o object.Object) object.Object { return o },
-					Decode: func(ctx context.Context, o object.Object) object.Object { return o },
-				})
-			}
-		})
+		// two host tasks register codecs under different names while the
+		// evaluations use the registry; afterwards every name must be there
+		for w := 0; w < 2; w++ {
+			id := freshCounter.Add(1)
+			s.Go("host", fmt.Sprintf("codec-writer%d", w), func() {
+				for i := 0; i < 3; i++ {
+					s.Yield("host.codec")
+					name := fmt.Sprintf("verif-%d-%d", id, i)
+					err := builtins.RegisterCodec(name, &builtins.Codec{
+						Encode: func(ctx context.Context, o object.Object) object.Object { return o },
+						Decode: func(ctx context.Context, o object.Object) object.Object { return o },
+					})
+					if err == nil {
+						codecMu.Lock()
+						codecNames = append(codecNames, name)
+						codecMu.Unlock()
+					}
+				}
+			})
+		}
+	}
+	// evaluations configured the ordinary way (risor.NewConfig with the default
+	// globals, each its own configuration), one of them sandboxed with a deny
+	// list and an override: configurations are independent of each other
+	type denvEval struct {
+		src, want string
+		opts      []risor.Option
+		out       *EvalOutcome
+	}
+	var denv []*denvEval
+	if g.Chance(1, 3) {
+		const plain = `[math.sqrt(16.0), strings.repeat("ab", 2), math.abs(-3), math.PI > 3.1]`
+		for i, n := 0, g.Range(1, 3); i < n; i++ {
+			denv = append(denv, &denvEval{src: plain, want: `[4, "abab", 3, true]`, opts: []risor.Option{risor.WithConcurrency()}, out: &EvalOutcome{}})
+		}
+		sandbox := &denvEval{
+			src:  `[try(func() { return math.sqrt(4.0) }, func(e) { return "denied" }), try(func() { return strings.repeat("x", 2) }, func(e) { return "denied" }), math.abs(-3), math.PI]`,
+			want: `["denied", "denied", 3, 3]`,
+			opts: []risor.Option{risor.WithConcurrency(), risor.WithoutGlobals("math.sqrt", "strings.repeat"), risor.WithGlobalOverride("math.PI", 3)},
+			out:  &EvalOutcome{},
+		}
+		at := g.Intn(len(denv) + 1)
+		denv = append(denv[:at], append([]*denvEval{sandbox}, denv[at:]...)...)
+		rc.Hit("default_env_evaluations_with_sandbox")
+		for i, d := range denv {
+			d := d
+			s.Go("main", fmt.Sprintf("denv%d", i), func() {
+				guard(d.out, func() (object.Object, error) { return risor.Eval(ctx, d.src, d.opts...) })
+			})
+		}
 	}
 	if withClones {
 		// a VM that publishes a function early and then keeps running and
@@ -605,6 +647,22 @@ func runC09(rc *fw.RunCtx) {
 	rc.AbsorbSim(s, strat.Name())
 	rc.NonTrivial = true
 	rc.Count("evaluations", n)
+	for _, name := range codecNames {
+		if _, err := builtins.GetCodec(name); err != nil {
+			rc.Violate("interference/codec-registry-lost-update", "codec %q was registered successfully by a host task while other registrations and evaluations were running, and is gone: %v", name, err)
+			return
+		}
+	}
+	for i, d := range denv {
+		if d.out.Panic != nil {
+			rc.Violate("panic/api", "default-environment evaluation %d: panic reached the caller: %v", i, d.out.Panic)
+			return
+		}
+		if got := d.out.String(); got != d.want {
+			rc.Violate("interference/configuration", "default-environment evaluation %d (%s) returned %s next to a sandboxed configuration (deny list, override); alone it returns %s", i, d.src, got, d.want)
+			return
+		}
+	}
 	if raceBuild {
 		rc.Hit("phase_R")
 	} else {
